@@ -113,3 +113,41 @@ def replay_pair(modname, funcname, a, ca, b, cb):
                        % (R.shape_str(a), ca, R.shape_str(b), cb, step, funcname))
             break
     return out
+
+
+def _same_result(a, b) -> bool:
+    """structural equality of two operation results (features by identity)."""
+    if isinstance(a, dict):
+        if not isinstance(b, dict) or len(a) != len(b):
+            return False
+        ka, kb = list(a.keys()), list(b.keys())
+        for x, y in zip(ka, kb):
+            if x is not y and x != y:
+                return False
+            if not _same_result(a[x], b[y]):
+                return False
+        return True
+    if isinstance(a, (list, tuple, set, frozenset)):
+        if not isinstance(b, (list, tuple, set, frozenset)) or len(a) != len(b):
+            return False
+        if isinstance(a, (set, frozenset)):
+            return sorted(id(x) for x in a) == sorted(id(x) for x in b)
+        return all(_same_result(x, y) for x, y in zip(a, b))
+    if hasattr(a, 'relations') and hasattr(a, 'name'):
+        return a is b
+    return a == b
+
+
+def result_twice(op, m):
+    """Execute the operation object twice on the model and return the result of the *second* execution;
+    the first must have been the same (an operation object may be re-used: its result depends on the model
+    of the current execution only). Callers compare the returned value with the definition."""
+    import copy
+    r1 = op.execute(m).get_result()
+    keep = copy.copy(r1) if isinstance(r1, (list, dict, set)) else r1
+    if isinstance(r1, list):
+        keep = [copy.copy(x) if isinstance(x, (list, set, dict)) else x for x in r1]
+    r2 = op.execute(m).get_result()
+    if not _same_result(keep, r2):
+        raise AssertionError('%s: the second execution of the same operation object on the same model returns another result' % type(op).__name__)
+    return r2
